@@ -2,7 +2,7 @@ import z3
 from props import _io, _tables
 from pyvc.core import Obligation, Val, VStr, fresh, Int
 
-META = {"level": "proof+bounded",
+META = {"level": "proof",
         "trusted_base": ["google.protobuf runtime", "oracles/io_oracles.py reference codec (independent of /repo)",
                          "iomodel: int.to_bytes/from_bytes, uuid.UUID(bytes=)/.bytes, str.encode/bytes.decode as stated in pyvc/iomodel.py"],
         "assumptions": ["UTF-8 encode/decode are mutually inverse on well-formed data (axioms utf8/utf8inv)",
